@@ -124,7 +124,7 @@ Proof.
   repeat split; try discriminate; try (vm_compute; reflexivity).
   - right. left. exists (zs "1"), (zs "5"). repeat split; discriminate.
   - right. right. left. exists (zs "1"), [], (zs "21"). repeat split; try discriminate. left. reflexivity.
-  - right. right. right. exists (zs "ff"). repeat split; discriminate.
+  - right. right. right. left. exists (zs "ff"). repeat split; discriminate.
   - left. repeat split; discriminate.
   - right. right. left. exists (zs "5"), [45], (zs "7"). repeat split; try discriminate. right. reflexivity.
   - left. repeat split; discriminate.
@@ -216,3 +216,20 @@ Proof. simpl. repeat split; try (intro; reflexivity). intros [_ H]. specialize (
 Example lexok_wide_print : print_expr true false true (EUn UPreInc (EDot (ENew (EId (zs "a")) ANil) (zs "b"))) = zs "++new a().b"
   /\ print_expr true false true (EUn UPreDec (EIndex (ENum (zs "1")) (EId (zs "x")))) = zs "--1[x]".
 Proof. vm_compute. split; reflexivity. Qed.
+
+(* a number text with a leading dot (minify-whitespace prints 0.5 as .5): "?" followed by ".5" lexes as "?" and ".5",
+   never as the optional-chaining punctuator "?." *)
+Definition ex_dot5 : expr :=
+  ECond (EId (zs "a")) (ENum (zs ".5")) (EBin BAdd (EDot (ENum (zs ".25")) (zs "x")) (EBin BIn (EId (zs "b")) (ENum (zs ".5")))).
+Example ex_dot5_print : print_expr true false true ex_dot5 = zs "a?.5:.25.x+(b in .5)".
+Proof. vm_compute. reflexivity. Qed.
+Example ex_dot5_wf : wf ex_dot5 /\ lexok ex_dot5.
+Proof.
+  unfold ex_dot5. simpl. unfold word_ok, word_shape, id_shape.
+  repeat split; try discriminate; try (left; repeat split; try discriminate; vm_compute; reflexivity); try (vm_compute; reflexivity).
+  - right. right. right. right. exists (zs "5"). repeat split; discriminate.
+  - right. right. right. right. exists (zs "25"). repeat split; discriminate.
+  - right. right. right. right. exists (zs "5"). repeat split; discriminate.
+Qed.
+Example ex_dot5_roundtrip : forall mw, parse_stmt_text (print_expr mw false true ex_dot5) = Some (norm ex_dot5).
+Proof. intro mw. apply print_stmt_roundtrip_all; apply ex_dot5_wf. Qed.
